@@ -2,17 +2,17 @@ import MakoModel.Basic.Wire
 import MakoModel.Printer.Model
 import MakoModel.Printer.Codegen
 /-!
-Driver handler of the printer / line-map model: op `prn`.
+Driver handler of the printer / line-map model: op `printer`.
 
-* `prn run <ev> <ev> …` – an emission event sequence.  Event tokens:
+* `printer run <ev> <ev> …` – an emission event sequence.  Event tokens:
   `S:<l>` start_source, `W:<owner|n>:<text>` writeline, `N` writeline(None), `B:<n>` write_blanks,
   `I:<start|n>:<block>` write_indented_block, `M` the metadata assignment, `C` close.
   Answer: `lineno=… map=k:v,… full=… wm=0|1 nbp=0|1 claimed=… buf=… marks=… owners=… nl=… err=0|1`
   (`map` is the serialised dict: sorted by key, the effective value per key; `err=1`: `max()` of an
   empty source_map was taken).
-* `prn tb <registered 0|1> <lineno> <fullmap> <ntemplatelines>` – `Tb.rewrite`.
-* `prn pick <tl|p> …` – `Tb.pickLine` (index of the chosen record, `none`).
-* `prn warn <action> <fullmap> <reg textids> <w> …` with `w = <phase p|m|b>:<file u|m|o>:<lineno>:<textid>`.
+* `printer tb <registered 0|1> <lineno> <fullmap> <ntemplatelines>` – `Tb.rewrite`.
+* `printer pick <tl|p> …` – `Tb.pickLine` (index of the chosen record, `none`).
+* `printer warn <action> <fullmap> <reg textids> <w> …` with `w = <phase p|m|b>:<file u|m|o>:<lineno>:<textid>`.
 -/
 namespace MakoModel.Printer.Drv
 open MakoModel.Wire MakoModel.Printer
@@ -127,7 +127,8 @@ def handleWarn : List String → Option String
       match t.splitOn ":" with
       | [ph, f, ln, tx] => do
         let ph ← match ph with
-          | "p" => some Warn.Phase.parse | "m" => some .module | "b" => some .parseInModule | _ => none
+          | "p" => some Warn.Phase.parse | "m" => some .module | "b" => some .parseInModule
+          | "n" => some .bare | _ => none
         let f ← fileOf f
         let ln ← ln.toNat?
         let tx ← tx.toNat?
@@ -185,15 +186,28 @@ def decItem (tok : String) : Option Codegen.Item :=
   | ["meta"] => some .metaAssign
   | _ => none
 
-/-- `prn emitall <item> …`: the event sequence of the skeleton, `wellMarked` of it, and whether all items are marked -/
+/-- `printer emitall <item> …`: the event sequence of the skeleton, `wellMarked` of it, and whether all items are marked -/
 def handleEmitAll (toks : List String) : Option String := do
   let items ← toks.mapM decItem
   let evs := Codegen.emitAll items
   pure <| "wm=" ++ encBool (wellMarked evs) ++ " marked=" ++ encBool (items.all (·.marked)) ++ " " ++
     " ".intercalate (evs.map encEvent)
 
+def encPhase : Warn.Phase → String
+  | .parse => "p" | .module => "m" | .parseInModule => "b" | .bare => "n"
+
+/-- `printer plan <upToDate 0|1> <accepted 0|1>`: the steps of `_compile_from_file` and their hook stacks -/
+def handlePlan : List String → Option String
+  | [u, a] => do
+    let u ← decBool u
+    let a ← decBool a
+    pure <| " ".intercalate ((Warn.compileFromFilePlan u a).map fun (st, ph) =>
+      (match st with | .regen => "regen" | .load => "load") ++ ":" ++ encPhase ph)
+  | _ => none
+
 def handle : Handler
   | "run" :: toks => handleRun toks
+  | "plan" :: rest => handlePlan rest
   | "emitall" :: toks => handleEmitAll toks
   | "tb" :: rest => handleTb rest
   | "pick" :: rest => handlePick rest
